@@ -12,7 +12,7 @@
    starting file and after every operation of every generated sequence (function EditInv). *)
 From Coq Require Import Permutation.
 From Verif.Base Require Import Bytes.
-From Verif.Modfile Require Import EditModel EditOps EditSpec EditProofsTyped EditProofsCoherent EditProofsCleanup.
+From Verif.Modfile Require Import EditModel EditOps EditSpec EditProofsTyped EditProofsCoherent EditProofsCleanup EditProofsAddLine EditProofsAdd EditProofsUpsert EditProofsSeq EditProofsBlocks EditProofsSetRequire.
 
 (* After File.Cleanup no typed list holds a cleared placeholder entry. *)
 Theorem C15_no_placeholders_after_cleanup : forall f,
@@ -75,13 +75,122 @@ Theorem C15_coherent_add_comment : forall f t, Coherent f -> Coherent (add_comme
 Proof. exact add_comment_coherent. Qed.
 Print Assumptions C15_coherent_add_comment.
 
+(* addLine itself (all hint cases, incl. the conversion of a line into a block): the tree
+   stays well shaped and gains exactly the one new directive. *)
+Theorem C15_add_line_adds_one_directive : forall s hint verb args,
+  SyntaxOk s -> args <> [] ->
+  SyntaxOk (fst (add_line s hint verb args)) /\
+  Permutation (tree_view (fst (add_line s hint verb args)))
+              ((length (heap s), verb, norm_args verb args dead_line) :: tree_view s).
+Proof. exact add_line_syntax. Qed.
+Print Assumptions C15_add_line_adds_one_directive.
+
+Theorem C15_coherent_add_exclude : forall f (p v : str) f',
+  p <> [] -> Coherent f -> add_exclude f p v = ROk f' -> Coherent f'.
+Proof. exact add_exclude_coherent. Qed.
+Print Assumptions C15_coherent_add_exclude.
+Theorem C15_coherent_add_retract : forall f (lo hi rat : str) f',
+  Coherent f -> add_retract f lo hi rat = ROk f' -> Coherent f'.
+Proof. exact add_retract_coherent. Qed.
+Print Assumptions C15_coherent_add_retract.
+Theorem C15_coherent_add_new_use : forall f (p m : str), p <> [] -> Coherent f -> Coherent (add_new_use f p m).
+Proof. exact add_new_use_coherent. Qed.
+Print Assumptions C15_coherent_add_new_use.
+Theorem C15_coherent_add_go_stmt : forall f (v : str) f', Coherent f -> add_go_stmt f v = ROk f' -> Coherent f'.
+Proof. exact add_go_stmt_coherent. Qed.
+Print Assumptions C15_coherent_add_go_stmt.
+Theorem C15_coherent_add_toolchain_stmt : forall f (v : str) f',
+  Coherent f -> add_toolchain_stmt f v = ROk f' -> Coherent f'.
+Proof. exact add_toolchain_stmt_coherent. Qed.
+Print Assumptions C15_coherent_add_toolchain_stmt.
+Theorem C15_coherent_add_module_stmt : forall f (p : str) f',
+  Coherent f -> add_module_stmt f p = Some f' -> Coherent f'.
+Proof. exact add_module_stmt_coherent. Qed.
+Print Assumptions C15_coherent_add_module_stmt.
+
+(* the "set the first line for the key, remove the others, else add a line" operations *)
+Theorem C15_coherent_add_godebug : forall f (key v : str) f',
+  key <> [] -> Coherent f -> add_godebug f key v = Some f' -> Coherent f'.
+Proof. exact add_godebug_coherent. Qed.
+Print Assumptions C15_coherent_add_godebug.
+Theorem C15_coherent_add_require : forall f (p v : str) f',
+  p <> [] -> Coherent f -> add_require f p v = Some f' -> Coherent f'.
+Proof. exact add_require_coherent. Qed.
+Print Assumptions C15_coherent_add_require.
+Theorem C15_coherent_add_new_require : forall f (p v : str) ind,
+  p <> [] -> Coherent f -> Coherent (add_new_require f p v ind).
+Proof. exact add_new_require_coherent. Qed.
+Print Assumptions C15_coherent_add_new_require.
+Theorem C15_coherent_add_use : forall f (p m : str) f',
+  p <> [] -> Coherent f -> add_use f p m = Some f' -> Coherent f'.
+Proof. exact add_use_coherent. Qed.
+Print Assumptions C15_coherent_add_use.
+Theorem C15_coherent_add_replace : forall f (op ov np nv : str) f',
+  op <> [] -> Coherent f -> add_replace f op ov np nv = Some f' -> Coherent f'.
+Proof. exact add_replace_coherent. Qed.
+Print Assumptions C15_coherent_add_replace.
+
+(* SortBlocks = removeDups + stable sort of every block; AddTool; SetUse; the WorkFile
+   statements that insert a line by position. *)
+Theorem C15_coherent_sort_blocks : forall f, Coherent f -> Coherent (sort_blocks f).
+Proof. exact sort_blocks_coherent. Qed.
+Print Assumptions C15_coherent_sort_blocks.
+Theorem C15_coherent_work_sort_blocks : forall f, Coherent f -> Coherent (w_sort_blocks f).
+Proof. exact w_sort_blocks_coherent. Qed.
+Print Assumptions C15_coherent_work_sort_blocks.
+Theorem C15_coherent_add_tool : forall f (p : str),
+  p <> [] -> must_quote p = false -> Coherent f -> Coherent (add_tool f p).
+Proof. exact add_tool_coherent. Qed.
+Print Assumptions C15_coherent_add_tool.
+Theorem C15_coherent_set_use : forall f (l : list (str * str)) f',
+  distinct_paths (map fst l) = true -> Coherent f -> set_use f l = Some f' -> Coherent f'.
+Proof. exact set_use_coherent. Qed.
+Print Assumptions C15_coherent_set_use.
+
+(* coherent_invariant: one statement for EVERY operation except SetRequire and
+   SetRequireSeparateIndirect ([coh_op2]), and for every sequence of such operations. *)
+Theorem C15_coherent_invariant_but_set_require : forall o f f',
+  coh_op2 o = true -> valid_args o = true -> Coherent f ->
+  apply o f = ROk f' \/ apply o f = RErr f' -> Coherent f'.
+Proof. exact coherent_invariant_but_set_require. Qed.
+Print Assumptions C15_coherent_invariant_but_set_require.
+
+Theorem C15_coherent_invariant_sequences : forall ops f errs f',
+  Coherent f ->
+  Forall (fun o => coh_op2 o = true /\ valid_args o = true) ops ->
+  run_ops ops f = RunOk errs f' -> Coherent f'.
+Proof. exact run_ops_coherent_but_set_require. Qed.
+Print Assumptions C15_coherent_invariant_sequences.
+
+(* SetRequire, outside one corner.  [RequireSettable f]: on the line of every live require
+   entry, setIndirect reaches whichever marking is requested. *)
+Theorem C15_coherent_set_require : forall f l f',
+  distinct_paths (map req_path l) = true -> Coherent f -> RequireSettable f ->
+  set_require f l = Some f' -> Coherent f'.
+Proof. exact set_require_coherent. Qed.
+Print Assumptions C15_coherent_set_require.
+
+(* The corner is real: "require a.b/c v1.0.0 // indirect; indirect; x", SetRequire with
+   indirect = false: the typed entry says direct, the line still says indirect.  Replayed on
+   the implementation (report). *)
+Theorem C15_coherent_set_require_refuted :
+  coherentb corner_file = true /\
+  exists f', set_require corner_file [(B "a.b/c", B "v1.0.0", false)] = Some f' /\ coherentb f' = false
+             /\ k_require (abs f') = [(B "a.b/c", B "v1.0.0", false)]
+             /\ is_indirect (sget (fsyn f') 0%nat) = true.
+Proof. exact set_require_coherent_refuted. Qed.
+Print Assumptions C15_coherent_set_require_refuted.
+
 (* NOT PROVED (the full target):
 
    coherent_invariant : forall o f f', Coherent f -> valid_args o = true ->
                         apply o f = ROk f' -> Coherent f'
-     is open for the operations that add or rewrite lines (Add*, Set*, SortBlocks): they need
-     the case analysis of addLine (five placements, line->block conversion) on [tree_view].
-     It is evaluated on every generated case instead (EditInv: coherentb after each
-     operation; 0 failures).
+     is proved above for 36 of the 37 operations (File and WorkFile); for SetRequire under
+     the extra hypothesis [RequireSettable], without which it is false of the code
+     (C15_coherent_set_require_refuted).  Open: SetRequireSeparateIndirect (moveReq copies
+     lines into other blocks, blocks are created and lines converted): the invariant is
+     evaluated on every generated case instead (EditInv: coherentb after each operation;
+     0 failures).  What IS proved for it: the exact-set theorem of C16 and the comment
+     theorem of C08.
 
    typed_equals_reparse needs the parser/printer round trip (C02/C20, other files). *)
